@@ -22,7 +22,8 @@ PROP = {'drive': ['Faults'],
                        'C18_parser_error',
                        'C18_model_agrees',
                        'C18_accepts_complete',
-                       'C18_dichotomy'],
+                       'C18_dichotomy',
+                       'C18_type_asserts'],
  # budget = number of corpus fonts / table sets; every fault point k of each is enumerated
  'areas': [('faults', 8, 40)],
  'thorough_seeds': 1,
